@@ -70,6 +70,7 @@ def run(ctx: Context) -> None:
     # processes (first-seen order, never the iteration order of a set) - shared with C18-R1
     from . import c18
     ctx.rule(c18.r1_writers)
+    ctx.rule(r10_derived_sources_private)
 
 
 def _self_path(e: ast.expr, self_name: str | None) -> str | None:
@@ -667,3 +668,35 @@ def r9_suffix_slices(ctx: Context, pl: Plumbing) -> None:
                       f"`{src(node)}` selects the last {k} rows only when {k} > 0; when {k} == 0 (a checkpoint written again with no new batch) it selects the WHOLE array, "
                       "so rows already stored are stored a second time and the restored history differs from the saved one", f, node)
     ctx.ok("R9.suffix-slice", "save_calibrator_state:slices", f"{len(funcs)} function(s) on the save path, {n} negative-count suffix slice(s), none unguarded")
+
+
+# ---------------------------------------------------------------------------------------------- R10
+def r10_derived_sources_private(ctx: Context) -> None:
+    """The search grid is not persisted: the restore rebuilds it from the persisted bounds and precision.  That is the saved grid only if the
+    stored bounds / precision cannot change after the grid was built from them, i.e. if the constructor keeps private copies of what the caller
+    handed in (np.array / .copy()), not the caller's own arrays (np.asarray / plain reference)."""
+    f = ctx.func("black_it.search_space:SearchSpace.__init__")
+    n = 0
+    for st in walk_scope(f.node):
+        if not (isinstance(st, (ast.Assign, ast.AnnAssign)) and st.value is not None):
+            continue
+        tg = st.targets[0] if isinstance(st, ast.Assign) else st.target
+        if not (isinstance(tg, ast.Attribute) and isinstance(tg.value, ast.Name) and tg.value.id == f.self_name and tg.attr.lstrip("_") in ("parameters_bounds", "parameters_precision")):
+            continue
+        n += 1
+        v = st.value
+        env = single_assignment_env(f.node)
+        for _ in range(4):
+            if isinstance(v, ast.Name) and v.id in env:
+                v = env[v.id]
+        fn = (dotted(v.func) or "") if isinstance(v, ast.Call) else ""
+        last = fn.split(".")[-1]
+        copy_kw = kwarg(v, "copy") if isinstance(v, ast.Call) else None
+        fresh = (last in ("array", "copy", "deepcopy", "stack", "vstack", "hstack", "column_stack", "concatenate") and not (isinstance(copy_kw, ast.Constant) and copy_kw.value in (False, None))) \
+            or (isinstance(v, ast.Call) and isinstance(v.func, ast.Attribute) and v.func.attr in ("copy", "astype") and not (isinstance(copy_kw, ast.Constant) and copy_kw.value is False)) \
+            or isinstance(v, (ast.BinOp, ast.List, ast.Tuple, ast.ListComp))
+        from_param = any(isinstance(x, ast.Name) and x.id in f.params and x.id != f.self_name for x in ast.walk(v))
+        ctx.check(fresh or not from_param, "R10.private-copy", f"SearchSpace.__init__:{tg.attr}", f"{tg.attr} is a private copy of the caller's argument",
+                  f"`{src(st)[:80]}` keeps the caller's own array: a later change of it moves the persisted {tg.attr.lstrip('_')} away from the grid that was built from them, and the "
+                  "restored calibrator (grid rebuilt from the persisted values) is not the saved one", f, st)
+    ctx.floor("R10", "stores of bounds / precision in SearchSpace.__init__", n, 2)
